@@ -114,6 +114,7 @@ type Ctx struct {
 	snaps   map[string]world.Snapshot
 	ops     map[string]*types.Operation
 	results map[string]*types.Operation
+	failed  map[string]error // (machine, history, operation) -> how the machine failed on it
 	trans   map[string]*nodeTrans
 
 	RealPolls    int64 // Poll ticks actually executed on real code
@@ -126,7 +127,7 @@ type Ctx struct {
 
 func NewCtx(n int) *Ctx {
 	return &Ctx{N: n, snaps: map[string]world.Snapshot{}, ops: map[string]*types.Operation{},
-		results: map[string]*types.Operation{}, trans: map[string]*nodeTrans{}}
+		results: map[string]*types.Operation{}, failed: map[string]error{}, trans: map[string]*nodeTrans{}}
 }
 
 func (c *Ctx) intern(sn world.Snapshot) string {
@@ -304,7 +305,7 @@ func (k *Worker) ensureMachine(i int, seq []string) error {
 			return fmt.Errorf("cannot rebuild machine %d: operation %s unknown", i, id)
 		}
 		if _, err := na.Process(op); err != nil {
-			return fmt.Errorf("rebuild machine %d: %w", i, err)
+			return fmt.Errorf("rebuild machine %d (operation %d of %d in its history, %s): %w", i, len(na.Ops), len(seq), op.Type, err)
 		}
 	}
 	na.Ops = append([]string(nil), seq...)
@@ -338,9 +339,22 @@ func (k *Worker) Answer(s *State, i int, op *types.Operation) (*types.Operation,
 		if err := k.ensureMachine(i, s.Mach[i]); err != nil {
 			return nil, nil, err
 		}
+		k.C.mu.Lock()
+		prev, failedBefore := k.C.failed[key]
+		k.C.mu.Unlock()
+		if failedBefore {
+			return nil, nil, prev // the same (history, operation) fails the same way
+		}
 		r, err := k.W.Airs[i].Process(op)
 		if err != nil {
-			return nil, nil, fmt.Errorf("airgapped machine %d: %w", i, err)
+			// a machine that panicked (or was killed) half-way is not in the state its history
+			// names: it must be rebuilt before it is used again
+			k.W.Airs[i].Ops = []string{"<left half-way by " + op.ID + ">"}
+			err = fmt.Errorf("airgapped machine %d: %w", i, err)
+			k.C.mu.Lock()
+			k.C.failed[key] = err
+			k.C.mu.Unlock()
+			return nil, nil, err
 		}
 		k.W.Airs[i].Ops = append([]string(nil), newSeq...)
 		res = r
